@@ -22,6 +22,7 @@ type bridgeRig struct {
 	cloud    *cloud
 	src, dst *memConn
 	started  bool
+	design   string // the model's design when hypothetical ("claim")
 }
 
 var chunkA = make([]byte, 1000)
@@ -79,6 +80,9 @@ func newBridgeRigT(free bool, seed int64, withTarget bool) *bridgeRig {
 
 // unreal: the behaviour cannot be realised; end the bridge's I/O first so that everything winds down at once.
 func (r *bridgeRig) unreal(i int, format string, a ...any) *fw.Trace {
+	if r.design == "claim" && r.reportInFlight("") {
+		claimExcl++ // refuted with a report in flight: on a tree whose reporters exclude each other that is what stops the others
+	}
 	r.src.injectEOF()
 	r.dst.injectEOF()
 	r.src.Close()
@@ -88,6 +92,19 @@ func (r *bridgeRig) unreal(i int, format string, a ...any) *fw.Trace {
 	r.b.Close()
 	r.cancel()
 	return t
+}
+
+// reportInFlight: is a reporter other than `but` inside a cloud-control call right now?
+func (r *bridgeRig) reportInFlight(but string) bool {
+	for _, p := range r.s.Procs() {
+		if p == but {
+			continue
+		}
+		if st, at := r.s.State(p); st == sched.Parked && (at.Point == "get" || at.Point == "upd" || at.Point == "upd.ret") {
+			return true
+		}
+	}
+	return false
 }
 
 func (r *bridgeRig) moved() int64 { return r.src.written.Load() + r.dst.written.Load() }
@@ -111,6 +128,7 @@ func (r *bridgeRig) rdGate(p string) string {
 func (r *bridgeRig) startLifecycle() string {
 	r.started = true
 	return r.s.Start("st", func() any {
+		r.cloud.spare.Store(goid())
 		r.rec.guard("Start", func() { r.b.Start() })
 		r.s.Gate("life", nil)
 		r.rec.add(fw.Event{"ev": "CloseCall", "p": "st"})
@@ -258,8 +276,11 @@ func (r *bridgeRig) finish() *fw.Trace {
 		return nil
 	})
 	// goroutines first (the final reporter may still be reporting), then the totals
-	n, top, detail := leaked(r.bl, grace)
-	r.rec.add(fw.Event{"ev": "Quiesce", "moved": r.moved(), "traffic": true, "leaked": n, "top": top, "detail": detail})
+	n, top, detail := leakedOf(r.bl, grace, r.only)
+	r.cloud.mu.Lock()
+	stored := r.cloud.stored
+	r.cloud.mu.Unlock()
+	r.rec.add(fw.Event{"ev": "Quiesce", "moved": r.moved(), "stored": stored, "traffic": true, "leaked": n, "top": top, "detail": detail})
 	r.cancel()
 	return r.trace("bridge", true)
 }
@@ -301,6 +322,22 @@ func driveBridgeScript(beh behaviour, seed int64) *fw.Trace {
 		r.rec.add(fw.Event{"ev": "CloseCall", "p": "x1"})
 		r.rec.guard("Close", func() { r.b.Close() })
 		r.rec.add(fw.Event{"ev": "CloseRet", "p": "x1"})
+	case "cloud-fault":
+		// more than the batch threshold one way, a tail the other way; then cloud control fails once (GetPortMapping or
+		// UpdatePortMappingStats, whichever reporter gets there first - never Start's own final report) while the
+		// bridge shuts down (parent context cancelled / explicit Close): a later reporter makes up for it
+		if !r.deliverN("cpA", 1000, 1150) || !r.deliver("cpB") {
+			return fail("no forwarding")
+		}
+		r.cloud.failOnce.Store([]string{"get", "upd"}[beh.Seed%2])
+		if beh.Seed/2%2 == 0 {
+			r.cancel()
+			time.Sleep(2 * time.Millisecond)
+		} else {
+			r.rec.add(fw.Event{"ev": "CloseCall", "p": "x1"})
+			r.rec.guard("Close", func() { r.b.Close() })
+			r.rec.add(fw.Event{"ev": "CloseRet", "p": "x1"})
+		}
 	case "big-large":
 		if !r.deliverN("cpA", 32*1024, 40) || !r.deliverN("cpB", 32*1024, 36) || !r.deliver("cpA") {
 			return fail("no forwarding")
@@ -310,6 +347,14 @@ func driveBridgeScript(beh behaviour, seed int64) *fw.Trace {
 	return r.finish()
 }
 
+// Schedules of the hypothetical design "claim" (two reports in flight at once) cannot be realised on a tree whose
+// reporters exclude each other for the whole report; each refutation costs a watchdog period. When the first
+// claimProbe of them have all been refuted the rest are not tried (on a tree that has the narrowed lock the very
+// first ones are realised).
+const claimProbe = 6
+
+var claimExcl, claimRealised int // schedules refuted because a second report could not start while one was in flight / realised
+
 func driveBridge(beh behaviour, seed int64) *fw.Trace {
 	if beh.Op != "" {
 		return driveBridgeScript(beh, seed)
@@ -317,6 +362,20 @@ func driveBridge(beh behaviour, seed int64) *fw.Trace {
 	if beh.Free {
 		return driveBridgeFree(beh, seed)
 	}
+	if beh.Design == "claim" {
+		if claimExcl >= claimProbe && claimRealised == 0 {
+			return &fw.Trace{Status: fw.Unrealisable, Note: fmt.Sprintf("design claim: the reporters of this tree exclude each other (%d schedules refuted that way, none realised)", claimExcl)}
+		}
+		t := driveBridgeSteps(beh, seed)
+		if t.Status == fw.Realised {
+			claimRealised++
+		}
+		return t
+	}
+	return driveBridgeSteps(beh, seed)
+}
+
+func driveBridgeSteps(beh behaviour, seed int64) *fw.Trace {
 	withTarget := true
 	for _, st := range beh.Steps {
 		if st.P == "tg" {
@@ -324,6 +383,7 @@ func driveBridge(beh behaviour, seed int64) *fw.Trace {
 		}
 	}
 	r := newBridgeRigT(false, seed, withTarget)
+	r.design = beh.Design
 	if hooks.dispose {
 		// with the entry hook a closer can be held between "connections closed" and the latch
 		// (goroutines the scheduler does not know pass: Adopt names none at this point)
@@ -339,6 +399,17 @@ func driveBridge(beh behaviour, seed int64) *fw.Trace {
 		switch st.A {
 		case "Start":
 			closedBefore := r.src.isClosed()
+			if r.ctx.Err() != nil && !closedBefore {
+				// Start on a cancelled context: the source copier tests the context before its first read and leaves at
+				// once through closeOnce / Close - no gate of the driver on its way: the rest runs free and is judged
+				r.startLifecycle()
+				t := r.finish()
+				if t.Status == fw.Realised {
+					t.Status = fw.Diverged
+					t.Note = fmt.Sprintf("step %d: Start after the cancellation runs free", i)
+				}
+				return t
+			}
 			state := r.withWatchdog(true, r.startLifecycle)
 			if state == sched.Done {
 				return r.unreal(i, "lifecycle ended at once")
@@ -368,8 +439,17 @@ func driveBridge(beh behaviour, seed int64) *fw.Trace {
 			if state != sched.Done {
 				return r.unreal(i, "SetTargetConnection did not return (%s)", r.where("tg"))
 			}
-		case "StartRet", "Wake", "RBegin", "FBegin", "Once", "Exit":
+		case "StartRet", "Wake", "RBegin", "FBegin", "Once", "Exit", "RUnclaim", "FDone":
 			// no gate of its own
+		case "GiveUp":
+			return r.unreal(i, "the periodic reporter gives up after 5 s only (driven as a held case)")
+		case "RGetFail", "RUpdFail": // cloud control fails this call: the reporter gives up, a later one makes up for it
+			at := map[string]string{"RGetFail": "get", "RUpdFail": "upd"}[st.A]
+			if !r.waitParkedAt(n, at) {
+				return r.unreal(i, "%s is %s, model expects it calling cloud control (%s)", n, r.where(n), at)
+			}
+			r.cloud.failNext.Store(true)
+			r.withWatchdog(st.W, func() string { s, _ := r.s.Step(n); return s })
 		case "Data":
 			if !r.deliver(st.P) {
 				return r.unreal(i, "%s did not move the chunk", st.P)
@@ -521,10 +601,8 @@ func driveBridgeFree(beh behaviour, seed int64) *fw.Trace {
 	close(gun)
 	done := make(chan struct{})
 	go func() { wg.Wait(); close(done) }()
-	select {
-	case <-done:
-	case <-time.After(10 * time.Second):
-		return &fw.Trace{Status: fw.DriverError, Note: "bridge: free-running closers did not finish"}
+	if t := awaitFree(done, "bridge: free-running closers"); t != nil {
+		return t
 	}
 	return r.finish()
 }
@@ -636,10 +714,8 @@ func driveBridgeFreeTarget(beh behaviour, seed int64) *fw.Trace {
 	close(gun)
 	done := make(chan struct{})
 	go func() { wg.Wait(); close(done) }()
-	select {
-	case <-done:
-	case <-time.After(10 * time.Second):
-		return &fw.Trace{Status: fw.DriverError, Note: "bridge: free-running closers did not finish"}
+	if t := awaitFree(done, "bridge: free-running closers"); t != nil {
+		return t
 	}
 	return r.finish()
 }
